@@ -17,7 +17,7 @@ pub fn def() -> CheckDef {
         meta: CheckMeta {
             id: "C04",
             level: "exploration",
-            rule: "scenarios of 1-2 reader threads against a writer thread that performs a chain of 2-4 commits on a prepared two-level bucket (commit i rewrites a variant-specific subset of keys with tag i plus a counter key, so every committed state is identifiable and pages are freed and reused piecemeal; file pre-sized, except that in 4 of the 16 scenarios it is cut to its high-water mark so that the chain's commits have to grow and remap it while readers come and go). The schedule is the generated input: real threads run one at a time under a controller that takes a decision at every instrumented yield point inside jammdb (transaction begin, after each lock, after the header read, after registration, commit phases, drop) and between the harness's API calls. All schedules with at most p preemptions are enumerated depth-first by re-execution (p = 2 quick, 3 thorough, capped per scenario; 'exhaustive' is true only if every enumeration completed), then seeded random and PCT-style priority schedules. Oracle per reader: the dump taken right after tx(false) returns equals exactly one model state S_j; j >= number of commits whose commit() had returned before the reader called tx(false); every later dump (after each further yield) equals the first; no panic. Non-trivial = schedule with >= 1 preemption in which at least one commit completed during a reader's lifetime. Distinct = hash of the choice sequence (per scenario).",
+            rule: "scenarios of 1-2 reader threads against a writer thread that performs a chain of 2-4 commits on a prepared two-level bucket (commit i rewrites a variant-specific subset of keys with tag i plus a counter key, so every committed state is identifiable and pages are freed and reused piecemeal; file pre-sized, except that in 4 of the 16 scenarios it is cut to its high-water mark so that the chain's commits have to grow and remap it while readers come and go). The schedule is the generated input: real threads run one at a time under a controller that takes a decision at every instrumented yield point inside jammdb (transaction begin, after each lock, after the header read, after registration, commit phases, drop; in 4 of the 16 scenarios also before every lock acquisition, blocked or not) and between the harness's API calls. All schedules with at most p preemptions are enumerated depth-first by re-execution (p = 2 quick, 3 thorough, capped per scenario; 'exhaustive' is true only if every enumeration completed), then seeded random and PCT-style priority schedules. Oracle per reader: the dump taken right after tx(false) returns equals exactly one model state S_j; j >= number of commits whose commit() had returned before the reader called tx(false); every later dump (after each further yield) equals the first; no panic. Non-trivial = schedule with >= 1 preemption in which at least one commit completed during a reader's lifetime. Distinct = hash of the choice sequence (per scenario).",
             assumptions: &[
                 "interleavings are explored at the instrumented yield points of this build (feature verif-hooks); data races inside a critical section without a yield point and weak-memory effects are out of reach",
                 "a replayed prefix that meets a different enabled set is counted as diverged (inconclusive), not as a violation",
@@ -39,6 +39,9 @@ pub struct Scenario {
     /// (and remap) the file while readers come and go
     #[serde(default)]
     pub grow: bool,
+    /// every lock acquisition inside jammdb is a scheduling point of its own (not only blocked ones)
+    #[serde(default)]
+    pub lock_yield: bool,
 }
 
 #[derive(Serialize, Deserialize, Clone, Debug)]
@@ -248,7 +251,7 @@ pub fn run_once(sc: &Scenario, template: &Path, work: &Path, states: &Arc<Vec<MB
         .map_err(|e| Failure::new("open_err", e.to_string()))?;
     let sh = Arc::new(Shared { commits_done: AtomicUsize::new(0), failures: Mutex::new(vec![]), overlap: AtomicUsize::new(0) });
     let threads = build_threads(sc, &db, states.clone(), sh.clone());
-    let exec = execute(threads, plan, strategy, 5000);
+    let exec = execute_opts(threads, plan, strategy, 5000, sc.lock_yield);
     let failures = sh.failures.lock().unwrap().clone();
     let overlap = sh.overlap.load(Ordering::SeqCst);
     if exec.leaked == 0 {
@@ -332,6 +335,9 @@ pub fn run_and_record(
             if sc.grow {
                 classes.push("commits grow and remap the file".to_string());
             }
+            if sc.lock_yield {
+                classes.push("every lock acquisition is a scheduling point".to_string());
+            }
             if ro.overlap >= 1 {
                 classes.push(if prop == "C09" { "writers contended / reader during resize".to_string() } else { "reader lifetime overlapped a commit".to_string() });
             }
@@ -367,7 +373,7 @@ pub fn run_and_record(
 
 fn shard(ctx: &ShardCtx, known: &Known) -> ShardOut {
     let mut out = ShardOut::default();
-    let sc = Scenario { readers: 1 + (ctx.shard / 8) % 2, commits: 2 + ctx.shard % 3, pattern: (ctx.shard % 9) as u8, holds: 2, grow: ctx.shard % 4 == 3 };
+    let sc = Scenario { readers: 1 + (ctx.shard / 8) % 2, commits: 2 + ctx.shard % 3, pattern: (ctx.shard % 9) as u8, holds: 2, grow: ctx.shard % 4 == 3, lock_yield: ctx.shard % 8 == 7 || ctx.shard % 8 == 2 };
     let template = ctx.db_path("c04.template.db");
     let work = ctx.db_path("c04.db");
     if let Err(f) = prepare_template(&sc, &template) {
